@@ -38,7 +38,10 @@ def cases(tier, seed):
         schemes = b['schemes'] if tier == 'thorough' else \
             b['schemes'][si % 3]
         for scheme in schemes:
-            yield {'L': L, 'shape': shape, 'scheme': scheme, 'seed': seed}
+            # level names of which each is a string prefix of the next
+            prefix_family = (si % 2 == 1) or tier == 'thorough'
+            yield {'L': L, 'shape': shape, 'scheme': scheme, 'seed': seed,
+                   'prefix_levels': prefix_family}
 
 
 def _ok(r):
@@ -54,6 +57,9 @@ def evaluate(case, scratch):
     sample = None
     base_spec = {'L': L, 'shape': case['shape'], 'scheme': case['scheme'],
                  'n_cells': 4, 'seed': case['seed']}
+    if case.get('prefix_levels'):
+        base_spec['level_names'] = ['grp', 'grp_sub', 'grp_sub_cl',
+                                    'grp_sub_cl_x'][:L]
     reductions = [('drop', i) for i in range(L - 1)] + [('flatten', None)]
     for mmode in ('full', 'fallback'):
         spec_a = dict(base_spec, marker_mode=mmode)
@@ -133,20 +139,27 @@ def evaluate(case, scratch):
                                       'first_record_A': ra.blob['results'][0]}
         # a level name the taxonomy does not contain changes nothing
         r0 = scenario.run_mapping(A, {}, scratch.new_dir('r0'))
-        r1 = scenario.run_mapping(A, {'drop_level': 'no_such_level'},
-                                  scratch.new_dir('r1'))
-        n_runs += 2
-        if _ok(r0) and _ok(r1):
-            for d in mapcheck.compare_results(
-                    r0.blob['results'], r1.blob['results'], full_h,
-                    tol=0.0)[:2]:
-                violations.append({'key': 'unknown-level-changes-result',
-                                   'msg': f'{shape_s} {mmode}: {d}'})
-            keys.append(f'{shape_s}|{mmode}|unknown-level')
-        elif _ok(r0) != _ok(r1):
-            violations.append({'key': 'unknown-level-changes-result',
-                               'msg': f'{shape_s} {mmode}: {r0.error!r} vs '
-                                      f'{r1.error!r}'})
+        n_runs += 1
+        # an unrelated name, a proper prefix of an existing level name, and
+        # an existing level name with a suffix
+        for unknown in ('no_such_level', full_h[0][:-1], full_h[0] + '_'):
+            r1 = scenario.run_mapping(A, {'drop_level': unknown},
+                                      scratch.new_dir('r1'))
+            n_runs += 1
+            if _ok(r0) and _ok(r1):
+                for d in mapcheck.compare_results(
+                        r0.blob['results'], r1.blob['results'], full_h,
+                        tol=0.0)[:2]:
+                    violations.append({
+                        'key': 'unknown-level-changes-result',
+                        'msg': f'{shape_s} {mmode} drop_level={unknown!r} '
+                               f'(levels {full_h}): {d}'})
+                keys.append(f'{shape_s}|{mmode}|unknown-level|{unknown}')
+            elif _ok(r0) != _ok(r1):
+                violations.append({
+                    'key': 'unknown-level-changes-result',
+                    'msg': f'{shape_s} {mmode} drop_level={unknown!r}: '
+                           f'{r0.error!r} vs {r1.error!r}'})
     return {'violations': violations[:40], 'keys': keys,
             'outcomes': [f'{shape_s}'], 'evaluations': n_runs,
             'sample': sample}
